@@ -60,6 +60,8 @@ from fractions import Fraction
 from vp import lib, wb
 from vp.refmodel import aggregates as ref
 
+from vp.core import h64
+
 PROP = 'C14'
 LEVEL = 'exploration'
 RULE = ('rectangles 1x1..5x5 (all 25 shapes) filled from pools of numbers (exact: small ints / dyadic '
@@ -80,7 +82,7 @@ BUDGET = {'quick': 15, 'thorough': 180}
 # every floor is below what the clock-independent part of the workload (exhaustive() + fixed())
 # delivers on its own, so a loaded machine cannot make a run inconclusive
 FLOORS = {
-    'quick': {'exh:grids': 15403, 'exh:sumproduct': 12681, 'exh:wb': 141,
+    'quick': {'directed:array_shown_ranges': 100, 'directed:ranges_beside_a_one_cell_sheet': 30, 'exh:grids': 15403, 'exh:sumproduct': 12681, 'exh:wb': 141,
               'fixed:agg': 3300, 'fixed:subtotal': 300, 'fixed:sumproduct': 1125,
               'pycel_calls': 140000, 'calls:wb': 14000, 'calls:SUBTOTAL': 3000,
               'law:permutation:checked': 12000, 'law:permutation-several-codes:checked': 1500,
@@ -1095,9 +1097,90 @@ def attempt(fn, *a):
         return ('x', type(exc).__name__)
 
 
+def _aggregate_formulas(rng_text):
+    out = {f: f'={f}({rng_text})' for f in ('SUM', 'AVERAGE', 'MIN', 'MAX', 'COUNT')}
+    out.update({f'SUBTOTAL:{n}': f'=SUBTOTAL({n},{rng_text})' for n in SUBTOTAL_CODES})
+    out['SUMPRODUCT'] = f'=SUMPRODUCT({rng_text})'
+    return out
+
+
+def _judge_directed(ctx, key_head, label, comp, formulas, shown, case):
+    """every aggregate over a range whose cells show ``shown`` (rows of values) against the model"""
+    ranges = [tuple(tuple(r) for r in shown)]
+    for k, (name, f) in enumerate(formulas.items()):
+        got = attempt(comp.evaluate, f'Sheet1!K{k + 1}')
+        ctx.count('directed_aggregate_calls')
+        func = ref.SUBTOTAL[int(name.split(':')[1])] if name.startswith('SUBTOTAL') else name
+        if func == 'SUMPRODUCT':
+            ok = got[0] == 'v' and ref.matches(got[1], ref.sumproduct(ranges), REL)
+        else:
+            ok = got[0] == 'v' and ref.accepts(func, ranges, got[1], REL)
+        if not ok:
+            ctx.violation(f'{key_head}/{name.split(":")[0]}', f'{label}: {f} gives {got!r}; the cells show {shown!r}',
+                          case)
+
+
+def array_shown_ranges(ctx, rounds):
+    """aggregates over the range of an array formula {=A1:A5} which shows a column of mixed cells (an empty source
+    cell shows as the number 0, text, logicals and the empty text show as themselves)"""
+    import random
+    rng = random.Random(h64(('c14-array-shown', ctx.seed, ctx.shard)))
+    pool = [1, 2.5, -3, 0, 'x', '3', '', True, False, None, None, 7]
+    for r in range(rounds):
+        n = rng.randint(2, 5)
+        col = [rng.choice(pool) for _ in range(n)]
+        if r % 3 == 0:
+            col[rng.randrange(n)] = None            # an empty element next to FALSE / the empty text
+            col[rng.randrange(n)] = rng.choice([False, '', 'x'])
+        if r % 7 == 0:
+            col[rng.randrange(n)] = rng.choice(ERRORS)
+        wide = r % 2 == 1
+        cells = {}
+        for i, v in enumerate(col):
+            if v is not None:
+                cells[wb.coord(1 + i, 1) if wide else wb.coord(1, 1 + i)] = v
+        src = f'A1:{wb.coord(n, 1)}' if wide else f'A1:A{n}'
+        tgt = f'A8:{wb.coord(n, 8)}' if wide else f'C1:C{n}'
+        formulas = _aggregate_formulas(tgt)
+        cells.update({f'K{k + 1}': f for k, f in enumerate(formulas.values())})
+        spec = {'sheets': [['Sheet1', cells]], 'names': {}, 'arrays': [['Sheet1', tgt, f'={src}']], 'calc': None}
+        case = {'kind': 'array-shown', 'col': col, 'wide': wide}
+        ctx.count('directed:array_shown_ranges')
+        ctx.case(('array-shown', repr(col), wide))
+        try:
+            comp = wb.compile_mem(spec)
+        except Exception as exc:   # noqa
+            ctx.violation('array-shown-range/compile-raises', f'{type(exc).__name__} for {col!r}', case)
+            continue
+        shown = [0 if v is None else v for v in col]
+        shown = [shown] if wide else [[v] for v in shown]
+        _judge_directed(ctx, 'array-shown-range', f'{{={src}}} over {tgt} with the source cells {col!r}', comp,
+                        formulas, shown, case)
+
+
+def ranges_beside_a_one_cell_sheet(ctx):
+    """whole columns / rows of a sheet whose used area is the single cell A1: A:A and 1:1 hold that cell, every other
+    column or row holds nothing"""
+    for v in (42, 'x', True, '#DIV/0!', 2.5):
+        for text, shown in (('D!A:A', [[v]]), ('D!1:1', [[v]]), ('D!B:B', [[None]]), ('D!2:2', [[None]]),
+                            ('D!C:C', [[None]]), ('D!B1:B6', [[None]] * 6)):
+            formulas = _aggregate_formulas(text)
+            cells = {f'K{k + 1}': f for k, f in enumerate(formulas.values())}
+            spec = {'sheets': [['Sheet1', cells], ['D', {'A1': v}]], 'names': {}, 'arrays': [], 'calc': None}
+            case = {'kind': 'one-cell-sheet', 'value': v, 'range': text}
+            ctx.count('directed:ranges_beside_a_one_cell_sheet')
+            ctx.case(('one-cell-sheet', repr(v), text))
+            comp = wb.compile_mem(spec)
+            _judge_directed(ctx, 'range-beside-a-one-cell-used-area', f'sheet D holds only A1 = {v!r}', comp, formulas,
+                            shown, case)
+
+
 def run(ctx):
     if ctx.shard == 0:
         table_references(ctx)
+    if ctx.shard == 2 % ctx.nshards:
+        ranges_beside_a_one_cell_sheet(ctx)
+    array_shown_ranges(ctx, 12 if ctx.quick else 150)
     exhaustive(ctx)
     fixed(ctx, 3 if ctx.quick else 30)
     sampled(ctx)
@@ -1106,6 +1189,12 @@ def run(ctx):
 def replay(ctx, case):
     if case.get('kind') == 'tables':
         table_references(ctx)
+        return
+    if case.get('kind') == 'one-cell-sheet':
+        ranges_beside_a_one_cell_sheet(ctx)
+        return
+    if case.get('kind') == 'array-shown':
+        array_shown_ranges(ctx, 12 if ctx.quick else 150)
         return
     sc = {k: v for k, v in case.items() if k != 'failing'}
     execute(ctx, sc)
